@@ -287,6 +287,9 @@ fn make_router(kind: &str, opts: StreamOpts) -> Option<Router> {
 // ------------------------------------------------------------------------------------------
 struct Servers {
     rt: tokio::runtime::Runtime,
+    /// one worker, ONE blocking-pool thread: hosts the `wsl` WebSocket servers, whose off-reader `next`
+    /// handlers then compete for a single thread
+    rt_small: tokio::runtime::Runtime,
     map: HashMap<String, SocketAddr>,
     /// raw connections kept open across cases (one per server): sequences of many streams — clean,
     /// failed, cancelled — on the SAME connection
@@ -300,7 +303,7 @@ struct Servers {
 impl Servers {
     fn new() -> Servers {
         let rt = tokio::runtime::Builder::new_multi_thread().worker_threads(4).max_blocking_threads(64).enable_all().build().unwrap();
-        Servers { rt, map: HashMap::new(), conns: HashMap::new(), sync_clients: HashMap::new(), async_clients: HashMap::new(), ws_clients: HashMap::new() }
+        Servers { rt, rt_small: tokio::runtime::Builder::new_multi_thread().worker_threads(1).max_blocking_threads(1).enable_all().build().unwrap(), map: HashMap::new(), conns: HashMap::new(), sync_clients: HashMap::new(), async_clients: HashMap::new(), ws_clients: HashMap::new() }
     }
     fn addr(&mut self, srv: &str, kind: &str, comp: u8, chunk: usize, depth: usize, level: i32) -> Option<SocketAddr> {
         let key = format!("{srv}|{kind}|{comp}|{chunk}|{depth}|{level}");
@@ -318,6 +321,7 @@ impl Servers {
             zstd_level: level,
             session_depth: depth,
         };
+        let opts = if chunk == 1 << 20 && comp == 1 && level == 3 && depth == 4 { StreamOpts::default() } else { opts };
         let router = make_router(kind, opts)?;
         let a = match srv {
             "tcp" => {
@@ -337,11 +341,74 @@ impl Servers {
                 });
                 Some(a)
             })?,
+            "wsl" => self.rt_small.block_on(async {
+                let l = tokio::net::TcpListener::bind("127.0.0.1:0").await.ok()?;
+                let a = l.local_addr().ok()?;
+                tokio::spawn(async move {
+                    let _ = repe::websocket_server::WebSocketServer::new(router).serve_listener(l, "/repe").await;
+                });
+                Some(a)
+            })?,
+            "tcpx" => {
+                // the blocking server behind a proxy that re-fragments both directions
+                let listener = std::net::TcpListener::bind("127.0.0.1:0").ok()?;
+                let real = listener.local_addr().ok()?;
+                let server = repe::Server::new(router);
+                std::thread::spawn(move || {
+                    let _ = server.serve(listener);
+                });
+                let front = std::net::TcpListener::bind("127.0.0.1:0").ok()?;
+                let a = front.local_addr().ok()?;
+                std::thread::spawn(move || fragmenting_proxy(front, real));
+                a
+            }
             _ => return None,
         };
         self.map.insert(key, a);
         Some(a)
     }
+}
+
+/// Accepts connections and forwards both directions to `real`, cutting every burst into pieces: the first
+/// 64 bytes of a burst one byte at a time (so a frame header, the 48/49 boundary and a short query arrive
+/// split), the rest in pieces of 1…1460 bytes, with an occasional millisecond stall.
+fn fragmenting_proxy(front: std::net::TcpListener, real: SocketAddr) {
+    static PROXY_SEED: AtomicU64 = AtomicU64::new(77);
+    for c in front.incoming() {
+        let Ok(client) = c else { continue };
+        let Ok(server) = std::net::TcpStream::connect(real) else { continue };
+        client.set_nodelay(true).ok();
+        server.set_nodelay(true).ok();
+        for (mut from, mut to) in [(client.try_clone().unwrap(), server.try_clone().unwrap()), (server, client)] {
+            let seed = PROXY_SEED.fetch_add(1, Ordering::Relaxed);
+            std::thread::spawn(move || {
+                let mut rng = Rng::new(seed);
+                let mut buf = vec![0u8; 1 << 16];
+                loop {
+                    let n = match from.read(&mut buf) {
+                        Ok(0) | Err(_) => break,
+                        Ok(n) => n,
+                    };
+                    let mut pos = 0;
+                    while pos < n {
+                        let k = if pos < 64 { 1 } else { 1 + rng.below(1460) as usize }.min(n - pos);
+                        if to.write_all(&buf[pos..pos + k]).is_err() {
+                            return;
+                        }
+                        pos += k;
+                        if rng.chance(1, 200) {
+                            std::thread::sleep(Duration::from_millis(1));
+                        }
+                    }
+                }
+                let _ = to.shutdown(std::net::Shutdown::Write);
+            });
+        }
+    }
+}
+
+fn is_tcp(srv: &str) -> bool {
+    srv == "tcp" || srv == "tcpx"
 }
 
 // ------------------------------------------------------------------------------------------
@@ -350,7 +417,7 @@ impl Servers {
 type WsStream = tokio_tungstenite::WebSocketStream<tokio_tungstenite::MaybeTlsStream<tokio::net::TcpStream>>;
 
 enum Conn {
-    Tcp { s: std::net::TcpStream, buf: Vec<u8>, stash: Vec<RawFrame> },
+    Tcp { s: std::net::TcpStream, buf: Vec<u8>, stash: Vec<RawFrame>, frag: Option<Rng> },
     Ws { ws: WsStream, stash: Vec<RawFrame> },
 }
 
@@ -358,11 +425,11 @@ static NEXT_REQ_ID: AtomicU64 = AtomicU64::new(1000);
 
 impl Conn {
     fn connect(sv: &Servers, srv: &str, addr: SocketAddr) -> Result<Conn, String> {
-        match srv {
+        match if is_tcp(srv) { "tcp" } else { "ws" } {
             "tcp" => {
                 let s = std::net::TcpStream::connect(addr).map_err(|e| format!("connect: {e}"))?;
                 s.set_nodelay(true).ok();
-                Ok(Conn::Tcp { s, buf: Vec::new(), stash: Vec::new() })
+                Ok(Conn::Tcp { s, buf: Vec::new(), stash: Vec::new(), frag: None })
             }
             _ => {
                 let url = format!("ws://{}/repe", addr);
@@ -391,7 +458,31 @@ impl Conn {
         let id = NEXT_REQ_ID.fetch_add(1, Ordering::Relaxed);
         let wire = RawFrame::request(id, notify, 1, path.as_bytes(), 1, body).to_vec();
         match self {
-            Conn::Tcp { s, .. } => s.write_all(&wire).map_err(|e| format!("write: {e}"))?,
+            Conn::Tcp { s, frag, .. } => match frag {
+                None => s.write_all(&wire).map_err(|e| format!("write: {e}"))?,
+                Some(rng) => {
+                    // the request leaves in pieces: byte by byte, or cut inside the header / at 48 / inside the query / inside the body
+                    let mut cuts: Vec<usize> = if wire.len() <= 160 && rng.chance(1, 2) {
+                        (1..wire.len()).collect()
+                    } else {
+                        let mut c = vec![1 + rng.below(47) as usize, 48, 49 + rng.below((wire.len() as u64 - 49).max(1)) as usize];
+                        if rng.chance(1, 2) { c.push(1 + rng.below(wire.len() as u64 - 1) as usize); }
+                        c
+                    };
+                    cuts.retain(|c| *c > 0 && *c < wire.len());
+                    cuts.sort();
+                    cuts.dedup();
+                    cuts.push(wire.len());
+                    let mut pos = 0;
+                    for c in cuts {
+                        s.write_all(&wire[pos..c]).map_err(|e| format!("write: {e}"))?;
+                        pos = c;
+                        if rng.chance(1, 6) {
+                            std::thread::sleep(Duration::from_millis(1 + rng.below(3)));
+                        }
+                    }
+                }
+            },
             Conn::Ws { ws, .. } => {
                 use tokio_tungstenite::tungstenite::Message as WsMsg;
                 sv.rt.block_on(async { ws.send(WsMsg::Binary(wire)).await.map_err(|e| format!("ws send: {e}")) })?
@@ -403,7 +494,7 @@ impl Conn {
     /// Wait for the response with this id; responses to other requests are kept for their own `wait`.
     fn wait(&mut self, sv: &Servers, id: u64) -> Result<RawFrame, String> {
         match self {
-            Conn::Tcp { s, buf, stash } => {
+            Conn::Tcp { s, buf, stash, .. } => {
                 if let Some(i) = stash.iter().position(|f| f.h.id == id) {
                     return Ok(stash.remove(i));
                 }
@@ -906,6 +997,9 @@ fn exec_raw(sv: &mut Servers, out: &mut Out, idx: &str, p: &Params, script: &str
             obs.push("noconn".into());
         }
         Ok(mut conn) => {
+            if let Conn::Tcp { frag, .. } = &mut conn {
+                *frag = if p.speed == 'f' { Some(Rng::new(fnv(p.aux().as_bytes()) | 1)) } else { None };
+            }
             match do_open(&mut conn, sv, &resource) {
                 Err(e) => {
                     failures.push(("svs.raw.open_failed".into(), e));
@@ -969,7 +1063,7 @@ fn exec_raw(sv: &mut Servers, out: &mut Out, idx: &str, p: &Params, script: &str
                                     }
                                     Ok(req_id) => {
                                         std::thread::sleep(Duration::from_millis(250));
-                                        let cancelled = if p.srv == "tcp" {
+                                        let cancelled = if is_tcp(&p.srv) {
                                             // the blocking server serves one request per connection at a time
                                             match Conn::connect(sv, &p.srv, addr) {
                                                 Ok(mut c2) => {
@@ -2491,6 +2585,73 @@ fn main() {
                 if comp == 1 && kind == "reader" { p.seed = 1 + r.below(1 << 30); }
                 if kind.starts_with("writer") && comp == 1 { p.variant = format!("e={}", evs_tok(&p.evs).replace(',', "_")); }
                 run.raw(&p, "N,n");
+            }
+        }
+    }
+    // (I) fragmented I/O: raw requests leaving in 1-byte / 2–4 pieces (cuts inside the header, at 48, inside
+    // query and body); everything (raw, blocking and async clients) through a proxy that re-fragments both directions
+    for k in 0..(if thorough { 400 } else { 60 }) {
+        rot += 1;
+        let chunk = *r.pick(&[1usize, 3, 7, 64, 4096]);
+        let kind = *r.pick(&["reader", "writer:0", "typed:u8", "value"]);
+        let srv = if k % 2 == 0 { "tcp" } else { "tcpx" };
+        let target = r.below(5 * chunk as u64 + 3) as usize;
+        let mut p = sized(&mut r, base(srv, kind, (k % 5 == 0) as u8, chunk, rot % 9), target);
+        if p.comp == 1 && kind == "reader" { p.seed = 1 + r.below(1 << 30); }
+        if kind.starts_with("writer") && p.comp == 1 { p.variant = format!("e={}", evs_tok(&p.evs).replace(',', "_")); }
+        p.speed = 'f';
+        run.raw(&p, *r.pick(&["N,n", "n,c,n", "m,n,u,N,n", "n,j,N,o,n", "n,w,N,n", "N,n*9"]));
+    }
+    for k in 0..(if thorough { 200 } else { 36 }) {
+        rot += 1;
+        let chunk = *r.pick(&[1usize, 7, 64, 4096, 65536]);
+        let (kind, puller) = [("reader", "vec"), ("writer:0", "call"), ("typed:u8", "typed"), ("value", "value"), ("reader", "file"), ("complex", "complex")][k % 6];
+        let target = chunk * r.below(5) as usize + r.below(3) as usize;
+        let mut p = sized(&mut r, base("tcpx", kind, (k % 4 == 0) as u8, chunk, rot % 9), target);
+        if p.comp == 1 && kind == "reader" { p.seed = 1 + r.below(1 << 30); }
+        if k % 7 == 0 && (kind == "reader" || kind == "writer:0") {
+            p.end = End::Err; p.err_kind = k % 20;
+            if ERR_KINDS[p.err_kind] == io::ErrorKind::Interrupted { p.err_kind = 0; }
+            if kind == "reader" { p.fail_at = p.len / 2; }
+        }
+        run.hl(&p, ["sync", "async"][k % 2], puller);
+    }
+    // (L) a WebSocket server whose runtime has ONE blocking-pool thread: every off-reader `next` competes for it
+    {
+        run.conc("wsl", 7, 2, 5, if thorough { 12 } else { 4 }, 23);
+        run.many("wsl", 7, 4, if thorough { 100 } else { 20 }, 17);
+        for k in 0..(if thorough { 120 } else { 24 }) {
+            rot += 1;
+            let chunk = *r.pick(&[1usize, 3, 7, 64]);
+            match k % 4 {
+                0 => {
+                    let mut p = base("wsl", "reader", 0, chunk, r.below(9) as usize);
+                    p.len = chunk * (3 + r.below(10) as usize) + 1;
+                    run.cnext(&p, 2 + r.below(3) as usize);
+                }
+                1 => {
+                    let mut p = base("wsl", "writer:0", 0, chunk, r.below(9) as usize);
+                    let pre = 2 + r.below(3) as usize;
+                    p.evs = (0..pre + 3).map(|_| Ev::W(chunk)).collect();
+                    p.variant = format!("g{pre}");
+                    let mut script: Vec<&str> = vec!["n"; pre - 1];
+                    script.push("q");
+                    script.extend(["n", "n"]);
+                    run.raw(&p, &script.join(","));
+                }
+                2 => {
+                    let kind = *r.pick(&["reader", "writer:0", "value"]);
+                    let (d, target) = (r.below(9) as usize, r.below(6 * chunk as u64 + 2) as usize);
+                    let p = sized(&mut r, base("wsl", kind, (k % 8 == 2) as u8, chunk, d), target);
+                    if p.comp == 1 && kind != "value" { continue; }
+                    run.raw(&p, *r.pick(&["N,n", "n,c,n", "n,k,n,n", "u,N,u", "n,w,N,n"]));
+                }
+                _ => {
+                    let (kind, puller) = [("reader", "vec"), ("writer:0", "call"), ("typed:u8", "typed"), ("reader", "cpart")][(k / 4) % 4];
+                    let (d, target) = (r.below(9) as usize, r.below(6 * chunk as u64 + 2) as usize);
+                    let p = sized(&mut r, base("wsl", kind, 0, chunk, d), target);
+                    run.hl(&p, "wsc", puller);
+                }
             }
         }
     }
